@@ -368,33 +368,11 @@ FastForward
 // fastForward is used whilst in CatchingUp state to reset the underlying
 // hashgraph from a Block and associated Frame.
 func (c *core) fastForward(block *hg.Block, frame *hg.Frame) error {
-	c.logger.Debug("Fast Forward", frame.Round)
-
-	// The block and frame come from the network; reject structurally invalid
-	// ones (nil elements) before anything dereferences them.
-	if err := checkFrameStructure(block, frame); err != nil {
+	if err := c.checkFastForward(block, frame); err != nil {
 		return err
 	}
 
-	peerSet := peers.NewPeerSet(frame.Peers)
-
-	// Check Block Signatures
-	err := c.hg.CheckBlock(block, peerSet)
-	if err != nil {
-		return err
-	}
-
-	// Check Frame Hash
-	frameHash, err := frame.Hash()
-	if err != nil {
-		return err
-	}
-
-	if !reflect.DeepEqual(block.FrameHash(), frameHash) {
-		return fmt.Errorf("Invalid Frame Hash")
-	}
-
-	err = c.hg.Reset(block, frame)
+	err := c.hg.Reset(block, frame)
 	if err != nil {
 		return err
 	}
@@ -416,6 +394,37 @@ func (c *core) fastForward(block *hg.Block, frame *hg.Frame) error {
 			latestRound = round
 			c.validators = peers.NewPeerSet(ps)
 		}
+	}
+
+	return nil
+}
+
+// checkFastForward verifies that a Block and Frame received in a
+// FastForwardResponse are acceptable, without modifying anything.
+func (c *core) checkFastForward(block *hg.Block, frame *hg.Frame) error {
+	// The block and frame come from the network; reject structurally invalid
+	// ones (nil elements) before anything dereferences them.
+	if err := checkFrameStructure(block, frame); err != nil {
+		return err
+	}
+
+	c.logger.Debug("Fast Forward", frame.Round)
+	peerSet := peers.NewPeerSet(frame.Peers)
+
+	// Check Block Signatures
+	err := c.hg.CheckBlock(block, peerSet)
+	if err != nil {
+		return err
+	}
+
+	// Check Frame Hash
+	frameHash, err := frame.Hash()
+	if err != nil {
+		return err
+	}
+
+	if !reflect.DeepEqual(block.FrameHash(), frameHash) {
+		return fmt.Errorf("Invalid Frame Hash")
 	}
 
 	return nil
